@@ -219,11 +219,19 @@ def finish(pm, pid, tier, seed, results, extra, contracts, wall):
     viol_count = 0
     os.makedirs(os.path.join(VERIF, "replays", pid), exist_ok=True)
     standin = getattr(pm, "find_counterexample", None)
+    by_fn = {}
     for v in violations:
         region = match_finding(findings, v)
         if region is not None:
             known_lines.append("KNOWN-FINDING: property=%s %s" % (pid, region["what"]))
             continue
+        by_fn.setdefault(v["function"], []).append(v)
+    for fn, vs in sorted(by_fn.items()):
+        # one replay search per function; all its failed families are named in the replay file
+        v = dict(vs[0])
+        v["family"] = vs[0]["family"] if len(vs) == 1 else "%s (+%d more families of %s)" % (vs[0]["family"], len(vs) - 1, fn)
+        v["bad"] = [b for x in vs for b in x["bad"][:2]][:6]
+        v["all_families"] = [x["family"] for x in vs]
         path, found = make_replay(pm, pid, v, standin)
         viol_count += 1
         out_lines.append("VIOLATION property=%s replay=%s%s" % (pid, path, "" if found else " no-failing-input-found"))
@@ -338,15 +346,17 @@ def make_replay(pm, pid, v, standin):
         # append the failed obligation to the replay header
         try:
             txt = open(path).read()
-            hdr = "# failed obligation: %s\n# verdict: %s (%s)\n# path: %s\n" % (
-                v["family"], v["bad"][0]["verdict"], v["bad"][0]["info"], " | ".join(v["bad"][0]["log"][-6:]))
+            hdr = "# failed obligation: %s\n# verdict: %s (%s)\n# path: %s\n# all failed families: %s\n" % (
+                v["family"], v["bad"][0]["verdict"], v["bad"][0]["info"], " | ".join(v["bad"][0]["log"][-6:]),
+                ", ".join(v.get("all_families", [v["family"]])))
             open(path, "w").write(hdr + txt)
         except Exception:
             pass
         return path, True
     path = os.path.join(d, safe + ".txt")
     with open(path, "w") as fh:
-        fh.write("failed obligation family: %s\nfunction: %s\n" % (v["family"], v["function"]))
+        fh.write("failed obligation family: %s\nfunction: %s\nall failed families: %s\n" % (
+            v["family"], v["function"], ", ".join(v.get("all_families", [v["family"]]))))
         fh.write("this family was discharged on the unchanged tree (obligations.baseline.json) and is not any more.\n")
         if found:
             fh.write("bounded search for a concrete failing input: %s\n" % json.dumps({k: x for k, x in found.items() if k != "replay"}))
